@@ -455,3 +455,83 @@ Section Cmd.
       end
     end.
 End Cmd.
+
+(* ------------------------------------------------------------------ the file as it is read back *)
+(* yaml.v3's encoder writes a mapping key that is the string `<<` unquoted; every YAML 1.1 reader
+   (yaml.v3 in the loader, PyYAML) then takes it for a merge key: the value must be a mapping
+   or a list of mappings (otherwise the file does not parse), its entries are spliced into the
+   surrounding mapping unless a key is already there, and the key `<<` itself disappears.
+   [reread v] = what is read from the file written for [v] (None = does not parse).
+   Known finding C19-merge-key; guard = [v2_merge_free]. *)
+Definition merge_key : str := B "<<".
+Definition is_merge (k : str) : bool := seqb k merge_key.
+
+Fixpoint has_merge_key (v : yv) : bool :=
+  match v with
+  | YList l => existsb has_merge_key l
+  | YMap m => existsb (fun e => is_merge (fst e) || has_merge_key (snd e)) m
+  | _ => false
+  end.
+
+Fixpoint all_some {A} (l : list (option A)) : option (list A) :=
+  match l with
+  | [] => Some []
+  | Some x :: t => option_map (cons x) (all_some t)
+  | None :: _ => None
+  end.
+
+Definition entry_opt (e : str * option yv) : option (str * yv) := option_map (pair (fst e)) (snd e).
+
+Definition merge_sources (v : yv) : option (list (str * yv)) :=
+  match v with
+  | YMap m => Some m
+  | YList l => fold_right (fun x acc => match x, acc with
+                                        | YMap m, Some a => Some (m ++ a)
+                                        | _, _ => None
+                                        end) (Some []) l
+  | _ => None
+  end.
+
+(* splice in the entries whose key is not there yet (explicit keys and earlier sources win) *)
+Fixpoint add_missing (src dst : list (str * yv)) : list (str * yv) :=
+  match src with
+  | [] => dst
+  | (k, x) :: t => match assoc k dst with
+                   | Some _ => add_missing t dst
+                   | None => add_missing t (dst ++ [(k, x)])
+                   end
+  end.
+
+Fixpoint reread (v : yv) : option yv :=
+  match v with
+  | YList l => option_map YList (all_some (map reread l))
+  | YMap m =>
+    match all_some (map (fun e => entry_opt (fst e, reread (snd e))) m) with
+    | None => None
+    | Some m' =>
+      match assoc merge_key m' with
+      | None => Some (YMap m')
+      | Some mv =>
+        match merge_sources mv with
+        | Some src => Some (YMap (add_missing src (filter (fun e => negb (is_merge (fst e))) m')))
+        | None => None
+        end
+      end
+    end
+  | _ => Some v
+  end.
+
+(* guard, on the v2 side: no package name, no interface name and no key inside an `_anchors`
+   value is the string `<<` (all other keys of the output are fixed v3 names) *)
+Definition cfg_merge_free (c : v2config) : bool :=
+  match v_anchors c with Some m => negb (has_merge_key (YMap m)) | None => true end.
+Definition ocfg_merge_free (o : option v2config) : bool :=
+  match o with Some c => cfg_merge_free c | None => true end.
+Definition iface_merge_free (ic : v2iface) : bool :=
+  ocfg_merge_free (i_config ic) && forallb cfg_merge_free (i_configs ic).
+Definition pkg_merge_free (pc : v2pkg) : bool :=
+  ocfg_merge_free (p_config pc) &&
+  forallb (fun e => negb (is_merge (fst e)) && iface_merge_free (snd e)) (p_ifaces pc).
+Definition v2_merge_free (r : v2root) : bool :=
+  cfg_merge_free (r_top r) &&
+  forallb (fun e => negb (is_merge (fst e)) && pkg_merge_free (snd e)) (r_pkgs r).
